@@ -11,6 +11,7 @@ A Stream is a named generator of case lines "<suite> <sx>" plus the name of the
 checker suite which evaluates the property predicate on an observed result.
 """
 import json, os, random, re, subprocess, sys, time, hashlib, itertools
+sys.setrecursionlimit(100000)
 
 ROOT = os.path.dirname(os.path.dirname(os.path.abspath(__file__)))
 CACHE = os.path.join(ROOT, ".cache")
